@@ -2509,23 +2509,25 @@ def _slice_indices(index: slice, len: int):
 
     start = index.start
     stop = index.stop
+    # same clamping as CPython's slice.indices
+    if step > 0:
+        lower = 0
+        upper = len
+    else:
+        lower = -1
+        upper = len - 1
     if start is None:
-        if step > 0:
-            start = 0
-        else:
-            start = len - 1
+        start = lower if step > 0 else upper
     elif start < 0:
-        start = max(0, len + start)
-
+        start = max(start + len, lower)
+    else:
+        start = min(start, upper)
     if stop is None:
-        if step > 0:
-            stop = len
-        else:
-            stop = -1
-    elif stop > 0:
-        stop = min(len, stop)
-    elif step < 0 or (step > 0 and start >= 0):
-        stop = len + stop
+        stop = upper if step > 0 else lower
+    elif stop < 0:
+        stop = max(stop + len, lower)
+    else:
+        stop = min(stop, upper)
     return start, stop, step
 
 
